@@ -50,7 +50,7 @@ def main():
         for row in rows:
             row = tuple(row) + ((head,) if len(row) == 4 else ())
             fh.write("| " + " | ".join(row) + " |\n")
-    return 0 if all(v == "CAUGHT" or v.startswith("NEUTRALISED") for _, _, v, _ in rows) else 1
+    return 0 if all(v == "CAUGHT" or v.startswith("NEUTRALISED") for _, _, v, *_ in rows) else 1
 
 
 if __name__ == "__main__":
